@@ -735,7 +735,45 @@ func (g *Gen) badBlock() {
 	if base < 0 {
 		return
 	}
-	switch g.r.Intn(6) {
+	switch g.r.Intn(7) {
+	case 6: // refused in the VERIFICATION stage (a transaction whose signature does not verify) while it conflicts with the pool
+		st := e.stateTip()
+		if st != base {
+			return
+		}
+		var ids []string
+		// a double spend of a pending transaction's input (that pending transaction is rolled back in memory first)
+		for _, ti := range e.pool {
+			t := w.Txs[ti]
+			if len(t.Ins) > 0 && !t.Coinbase {
+				t2 := &TxInfo{Idx: len(w.Txs), From: t.From, Ins: t.Ins}
+				sum := big.NewInt(0)
+				for _, r := range t.Ins {
+					sum.Add(sum, r.Amt)
+				}
+				t2.Outs = []OutInfo{{Addr: g.users()[g.r.Intn(3)], Amt: sum}}
+				g.emit(t2.line("xtx", ""))
+				ids = append(ids, fmt.Sprint(t2.Idx))
+				break
+			}
+		}
+		s := w.SpecAt(base).clone()
+		l1, ok := g.genXfer(s, w.Blocks[base].Height, "")
+		if !ok {
+			return
+		}
+		g.emit(strings.Replace(l1, " from=", " sig=bad from=", 1))
+		ids = append(ids, fmt.Sprint(len(w.Txs)-1))
+		if g.r.Bool() && len(ids) == 2 {
+			ids[0], ids[1] = ids[1], ids[0]
+		}
+		bi := len(w.Blocks)
+		e.badBlocks[bi] = true
+		g.emit(fmt.Sprintf("blk %d pre=%d prop=m1 aa=%d aw=%d txs=%s", bi, base, w.Award, len(w.Txs), strings.Join(ids, ",")))
+		if g.emit(fmt.Sprintf("confirm %d", bi)) != "fail" {
+			g.confirmed[bi] = true
+			g.syncState()
+		}
 	case 5: // a pending transaction without the pending transaction it depends on (spends its output / reads its write)
 		st := e.stateTip()
 		if st != base {
